@@ -50,7 +50,7 @@ from docutils.writers import Writer
 from docutils.parsers.rst.directives.admonitions import BaseAdmonition # type: ignore[import-untyped]
 from docutils.readers.standalone import Reader as StandaloneReader
 from docutils.utils import Reporter
-from docutils.parsers.rst import Directive, directives
+from docutils.parsers.rst import Directive, directives, roles
 from docutils.transforms import Transform, frontmatter
 
 from pydoctor.epydoc.markup import Field, ParseError, ParsedDocstring, ParserFunction
@@ -104,10 +104,21 @@ def parse_docstring(docstring: str,
     # characters, which are not line ends for Python; all line numbers after them would be off.
     docstring = re.sub('[\x1c\x1d\x1e\x85\u2028\u2029]', ' ', docstring)
 
-    publish_string(docstring, writer=writer, reader=reader,
-                   settings_overrides={'report_level':10000,
-                                       'halt_level':10000,
-                                       'warning_stream':None})
+    # docutils keeps the roles of a document (`.. default-role::`, `.. role::`) in a module-level registry and
+    # forgets the default role only when the parser returns normally: a docstring must not change how the
+    # next one is read, whether or not parsing it fails.
+    roles_before = dict(roles._roles)
+    try:
+        publish_string(docstring, writer=writer, reader=reader,
+                       settings_overrides={'report_level':10000,
+                                           'halt_level':10000,
+                                           'warning_stream':None,
+                                           # docutils does not parse the input AT ALL when a line is longer than this
+                                           # (10000 by default): a docstring is source code we document, not untrusted input.
+                                           'line_length_limit': max(len(docstring), 10000) + 1})
+    finally:
+        roles._roles.clear()
+        roles._roles.update(roles_before)
 
     document = writer.document
     visitor = _SplitFieldsTranslator(document, errors)
